@@ -261,11 +261,12 @@ def blimpy_channels(fsel0, fsel1, fch1, foff, nchans, desc):
     return z3.If(i1 < i0, i1, i0), z3.If(i1 < i0, i0, i1)
 
 
-def job_split_waterfall(desc, maxpieces, with_shift, tch_mode):
+def job_split_waterfall(desc, maxpieces, with_shift, tch_mode, foff_abs=2.0):
+    """foff_abs: channel width of the file in MHz (3e-7 = 0.3 Hz: finer than any "snap the edges to 1 Hz" shortcut)"""
     recs = []
-    tag = f"C19:split_waterfall:{(desc, maxpieces, with_shift, tch_mode)}"
+    tag = f"C19:split_waterfall:{(desc, maxpieces, with_shift, tch_mode)}" + (f":foff{foff_abs}" if foff_abs != 2.0 else '')
     ni, fi, si = z3.Ints('nchans fchans f_shift')
-    foff_v = -2.0 if desc else 2.0
+    foff_v = -foff_abs if desc else foff_abs
     fch1_v = 4096.0
     pre = [fi >= 1, ni >= 1, ni <= NMAX, si >= 1, fi <= NMAX, si <= NMAX]
     if not with_shift:
@@ -290,7 +291,7 @@ def job_split_waterfall(desc, maxpieces, with_shift, tch_mode):
         base = pre + leaf.pc + leaf.side
         name = f"{tag}:leaf{li}"
         mk = lambda m: dict(fn='split_waterfall', desc=desc, nchans=int(str(m.eval(ni, model_completion=True))), fchans=int(str(m.eval(fi, model_completion=True))),
-                            f_shift=int(str(m.eval(si, model_completion=True))) if with_shift else None, tchans=tch_mode)
+                            f_shift=int(str(m.eval(si, model_completion=True))) if with_shift else None, tchans=tch_mode, df_hz=(0.3 if foff_abs != 2.0 else 2.0))
         if leaf.kind == 'exc':
             r, m = core.check(base)
             recs.append(q(name, r, detail=repr(leaf.value)))
@@ -468,7 +469,7 @@ def replay_split_waterfall(p):
     tmp = tempfile.mkdtemp(prefix='c19_', dir='/var/tmp')
     try:
         nch, fch, s = p['nchans'], p['fchans'], p['f_shift']
-        fr = stg.Frame(fchans=nch, tchans=5, df=2.0, dt=1.0, fch1=4096.0e6, ascending=not p['desc'], seed=1)
+        fr = stg.Frame(fchans=nch, tchans=5, df=p.get('df_hz', 2.0), dt=1.0, fch1=4096.0e6, ascending=not p['desc'], seed=1)
         fr.data = np.arange(5 * nch, dtype=float).reshape(5, nch)
         fn = os.path.join(tmp, 'in.fil')
         fr.save_fil(fn)
@@ -526,6 +527,7 @@ def main():
         for with_shift in (False, True):
             jobs.append(('job_split_waterfall', (desc, 4 if not ck.thorough else 9, with_shift, 'none')))
         jobs.append(('job_split_waterfall', (desc, 3, True, 'some')))
+        jobs.append(('job_split_waterfall', (desc, 3, True, 'none', 3e-7)))
         jobs.append(('job_split_fp', (desc,)))
     for kind in ('generator', 'split_fil', 'consumers'):
         jobs.append(('job_real_files', (kind,)))
